@@ -8,7 +8,7 @@ from vlib import core, graph, ecdhdrv, toy
 
 
 def cfg(maxsteps):
-    return ("SPECIFICATION Spec\nCONSTANTS Curves = {1, 2}\n Scalars = {1, 2}\n MaxSteps = %d\nINVARIANT TypeOK\nINVARIANT SecretIff\n"
+    return ("SPECIFICATION Spec\nCONSTANTS Curves = {1, 2, 3}\n Scalars = {1, 2}\n MaxSteps = %d\nINVARIANT TypeOK\nINVARIANT SecretIff\n"
             "PROPERTY PubOnlyFromValid\nPROPERTY FailuresAreNoOps\n" % maxsteps)
 
 
@@ -134,10 +134,10 @@ def run(ctx):
     ctx.extra["replay"] = {"states": len(g.states), "edges": total, "edges_covered": covered, "paths": len(paths), "real_steps": steps}
     ctx.sample({"history": [g.states[d]["last"] for d in dpaths[len(dpaths) // 2]]})
     production(ctx, quick, rnd)
-    ctx.rule = ("S->C: every transition of TLC's state graph of ECDH.tla (2 curves x 2 scalars, all call sequences of length <= %d over "
+    ctx.rule = ("S->C: every transition of TLC's state graph of ECDH.tla (3 curves x 2 scalars, all call sequences of length <= %d over "
                 "set_curve / generate / load private {object, bytes, DER, PEM} / load remote {object, raw, uncompressed, compressed, "
                 "hybrid, DER, PEM} / load invalid remote key / shared secret / shared secret bytes) replayed on real ECDH objects on "
-                "toy curves T263 (prime order) / Th4c (cofactor 4; small-subgroup remote keys); plus random walks of 6-15 calls over the unbounded machine, biased towards secrets, comparing outcome class, the three slots after every step, the secret with x(dA dB G), the "
+                "toy curves T263 (prime order) / Th4c (cofactor 4; small-subgroup remote keys) / T263g (T263's equation and order with base point 7G); plus random walks of 6-15 calls over the unbounded machine, biased towards secrets, comparing outcome class, the three slots after every step, the secret with x(dA dB G), the "
                 "peer's secret, and the byte form; production: 17 curves x boundary scalar pairs incl. one with a leading-zero "
                 "secret found by search, all encodings/containers, invalid remote keys refused; non-trivial = transitions replayed"
                 % (4 if quick else 5))
